@@ -263,7 +263,7 @@ package slice
 //@ func LCSFunc
 //@   role eq eqv
 //@   ghostret wa imap[int], wb imap[int]
-//@   ensures [C11,C12,C13] common: forall k int :: {result[k]} 0 <= k && k < len(result) ==> 0 <= wa[k] && wa[k] < len(as) && 0 <= wb[k] && wb[k] < len(bs) && eqv(eq, as[wa[k]], result[k]) && eqv(eq, bs[wb[k]], result[k])
+//@   ensures [C11,C12,C13] common: forall k int :: {result[k]} {wa[k]} {wb[k]} 0 <= k && k < len(result) ==> 0 <= wa[k] && wa[k] < len(as) && 0 <= wb[k] && wb[k] < len(bs) && eqv(eq, as[wa[k]], result[k]) && eqv(eq, bs[wb[k]], result[k])
 //@   ensures [C11,C12,C13] ascending: forall a int, b int :: {wa[a], wa[b]} {wb[a], wb[b]} 0 <= a && a <= b && b < len(result) ==> wa[b] - wa[a] >= b - a && wb[b] - wb[a] >= b - a
 //@   ensures [C11,C12,C13] inputs: unchanged(elems(as)) && unchanged(elems(bs)) && (len(result) > 0 ==> fresh(result))
 //@   ghostret nodes set[ref], u imap[int], v imap[int]
